@@ -184,11 +184,42 @@ func (ex *Exec) callFunction(fr *frame, fn *ssa.Function, args []Val, bind []Val
 	if v, ok := ex.genericExternal(c); ok {
 		return v
 	}
-	if ex.Cfg.OnUnsupported != nil {
-		ex.Cfg.OnUnsupported("external " + name)
+	return ex.externalHavoc(c, "external "+name)
+}
+
+// externalHavoc is the default reading of a call the executor has neither a body, a model
+// nor a contract for: when it receives a context (or a store / keeper handle) the whole ghost
+// world may change; pointees of pointer arguments may change; results are arbitrary. This
+// over-approximates every possible behaviour of the callee except non-termination.
+func (ex *Exec) externalHavoc(c *Call, what string) Val {
+	if ex.Cfg.StrictExternals {
+		ex.abort("unmodelled %s", what)
 	}
-	ex.abort("unmodelled external function %s", name)
-	return nil
+	touchesState := false
+	for _, a := range c.Args {
+		switch v := ex.force(a).(type) {
+		case *CtxV:
+			ex.havocEverything(v.W)
+			touchesState = true
+		case *StoreV:
+			ex.havocEverything(v.W)
+			touchesState = true
+		case *PtrV:
+			if v.C != nil {
+				ex.store(v, &LazyV{T: v.T, Nm: Namer{Prefix: ex.freshName("exthavoc!" + c.Name)}})
+			}
+		}
+	}
+	tag := "external-havoc"
+	if !touchesState {
+		tag = "external-fresh"
+	}
+	ex.Calls = append(ex.Calls, tag+": "+what)
+	ex.Externals[tag+": "+what] = true
+	if c.Result == nil {
+		return nil
+	}
+	return ex.symbolicResult(c.Result, Namer{Prefix: ex.site("ext!" + c.Name)})
 }
 
 // applyAbstract: fresh results, declared havoc.
@@ -337,11 +368,7 @@ func (ex *Exec) invoke(fr *frame, common *ssa.CallCommon, recv Val, args []Val, 
 			return ex.callFunction(fr, fn, append([]Val{rv}, args...), nil, common, ins)
 		}
 	}
-	if ex.Cfg.OnUnsupported != nil {
-		ex.Cfg.OnUnsupported("invoke " + typeString(itype) + "." + mname)
-	}
-	ex.abort("unmodelled interface call %s.%s", typeString(itype), mname)
-	return nil
+	return ex.externalHavoc(c, "invoke "+typeString(itype)+"."+mname)
 }
 
 func (ex *Exec) builtin(fr *frame, b *ssa.Builtin, args []Val, common *ssa.CallCommon, ins ssa.Instruction) Val {
